@@ -3,7 +3,7 @@
    = w workers, size bound m (0 = none), wrapper mode md, Poll re-checks the cancel channel (rc), Shutdown always
    broadcasts (bc).  [run s labels] executes an arbitrary schedule of client calls, clock ticks and worker steps. *)
 From Coq Require Import NArith List Bool Relations.
-From Verif.C18_Timed Require Import Model Heap Micro Proofs Witness Progress TaskExec Fair Window Wake Burst.
+From Verif.C18_Timed Require Import Model Heap Micro Proofs Witness Progress TaskExec Fair Window Wake Burst Split.
 Import ListNotations.
 
 (* For every configuration (also the pinned variants) and every schedule: a value is never delivered before its
@@ -272,6 +272,42 @@ Theorem C18_refuted_cancel_true_after_drop :
   [ETCancel 1 true; ECancel 1 false 0%N; EDrop 1; EAdd 1 20%N (Some 1) 0%N; EAdd 0 10%N (Some 0) 0%N].
 Proof. exists stale. exact refuted_cancel_true_after_drop. Qed.
 
+(* ATOMICITY ASSUMPTION of C18_task_executor: ExecuteAt(id), Cancel(id) and the wrapper's clean-up are single steps of
+   the model because the code holds queuedElementsMutex across each whole read-modify-write of the identifier map and
+   the queue (tied to the code by the free-running "race" family of the correspondence check, not by a proof).
+   The assumption is necessary: Cancel(1) cut into look-up / element.Cancel() / Delete(1) ([tc_lookup], [tc_cancel],
+   [tc_delete]; composed without interruption they are [tcancel_step]: [split_cancel_seq]) with an atomic ExecuteAt(1)
+   of another goroutine between the look-up and the rest: Cancel(1) reports true, the re-scheduled task 1 is pending
+   (queued, not dead) but untracked - clause (2) fails -, a later Cancel(1) returns false although a pending task
+   exists - clause (4) fails -, the task stays in the heap (Size() = 1) and when its time has come the wrapper skips it:
+   it never runs although nothing cancelled or replaced it - clause (5) fails.  The state is outside the invariant of
+   ALL schedules of atomic steps. *)
+Theorem C18_refuted_split_cancel :
+  tc_lookup split_s1 1 = Some 0 /\
+  pending_task split_s2 1 1 /\
+  hd EReject (log split_s3) = ETCancel 1 true /\
+  pending_task split_s3 1 1 /\ tget 1 (tmap split_s3) = None /\
+  heap split_s3 = [mkE 1 200%N (Some 1)] /\ dead split_s3 = [0; 0] /\
+  hd EReject (log (step split_s3 (LTCancel 1))) = ETCancel 1 false /\
+  (let s4 := run split_s3 split_rest in
+   started (log s4) = [] /\ hd EReject (log s4) = ESkipRun 1 /\ heap s4 = [] /\ workers s4 = [WIdle]) /\
+  ~ TInv true split_s3.
+Proof. exact refuted_split_cancel. Qed.
+
+(* ... and two split Cancel(1) that both look up the only task before either deletes the identifier both return true
+   (with atomic steps the second returns false) *)
+Theorem C18_refuted_split_cancel_twice :
+  tc_lookup split_s1 1 = Some 0 /\ nxt split_two = 1 /\ count_tcancel_true 1 (log split_two) = 2 /\
+  count_tcancel_true 1 (log (run split_s1 [LTCancel 1; LTCancel 1])) = 1.
+Proof. exact refuted_split_cancel_twice. Qed.
+
+Example C18_split_cancel_is_atomic_step : forall s k,
+  tcancel_step s k = match tc_lookup s k with
+                     | None => emit s (ETCancel k false)
+                     | Some e => tc_delete (tc_cancel s e) k e
+                     end.
+Proof. exact split_cancel_seq. Qed.
+
 (* non-vacuity: a schedule with deliveries, a cancel, a drop-free run; the predicates are not trivially true *)
 Example C18_nonvacuous :
   let l := log (run (init 2 0 IfOwn true true)
@@ -310,3 +346,5 @@ Print Assumptions C18_refuted_stale_identifier.
 Print Assumptions C18_task_executor_start_local.
 Print Assumptions C18_refuted_wrapper.
 Print Assumptions C18_refuted_cancel_true_after_drop.
+Print Assumptions C18_refuted_split_cancel.
+Print Assumptions C18_refuted_split_cancel_twice.
